@@ -211,7 +211,7 @@ func init() {
 			c.Skip()
 		}
 		maxDepth := 3
-		if c.Thorough {
+		if c.Thorough && mode <= 1 {
 			maxDepth = 4
 		}
 		n := c.Choose(maxDepth + 2)
@@ -319,7 +319,7 @@ func init() {
 		},
 		Rule: "every command tree with <= 4 commands and depth <= 3 (all 32 parent arrays) plus the chain of depth 4, one counter flag per node; deviations from the plain tree (bounded: 1 quick / 2 thorough): aliases on <= 2 nodes, " +
 			"subcommands-optional on any subset of inner nodes incl. the parser, one node's flag letter clashing with its parent's or grandparent's, a deeper command reusing a top-level command's name, any subset of commands hidden; " +
-			"x {struct tags, API, API with executable commands, API where the parser's flag sits in a group that is added after the commands and after a parse that selected each of them} x every sequence of <= 3 (quick) / <= 4 (thorough) tokens over all names, aliases, every node's flag, one long flag and an unknown word, plus beyond that bound [unit, full path to any node, unit]; oracle = CLM active chain, scoping (which counter was incremented), " +
+			"x {struct tags, API, API with executable commands, API where the parser's flag sits in a group that is added after the commands and after a parse that selected each of them} x every sequence of <= 3 tokens (thorough: <= 4 for the tag and plain API builds) over all names, aliases, every node's flag, one long flag and an unknown word, plus beyond that bound [unit, full path to any node, unit]; oracle = CLM active chain, scoping (which counter was incremented), " +
 			"remaining arguments and ErrCommandRequired / ErrUnknownCommand",
 		Assumptions:  []string{"deviation-bounded over declaration features, exhaustive over trees and token sequences"},
 		RequiredHits: []string{"model-clean", "chain-depth>=2", "command-fault", "other-fault"},
